@@ -140,6 +140,9 @@ pub fn run(reg: &dyn Registry, ctx: &Ctx) -> Outcome {
             let mut blocks: Vec<Vec<u8>> = alphabet::w1(len);
             blocks.push(alphabet::bg_bytes(ctx.seed, 0x0803, len));
             blocks.extend(documented_constant_seeds(*ty).into_iter().filter(|s| s.iter().any(|&b| b != 0)));
+            // blocks whose words have a special pattern (a zero word, equal words, words summing / xoring to
+            // zero, ...): any "is this block zero" test that looks at less than all the bits
+            blocks.extend(crate::linear::special_images(len * 8, info.word_bits, ctx.seed ^ 0x08).into_iter().map(|v| v.to_bytes()));
             let zmax = if thorough { 1 << 18 } else { 65536 };
             for z in alphabet::zero_block_counts(zmax) {
                 for blk in blocks.iter().step_by(if z <= 1 { 1 } else if z <= 12 { 16 } else { 61 }) {
@@ -205,7 +208,7 @@ pub fn run(reg: &dyn Registry, ctx: &Ctx) -> Outcome {
             traces: "source_scripts",
             evaluations: "evaluations",
             distinct: "distinct_images",
-            rule: "every constructor of the 14 linear xoshiro types and XorShiftRng on: the all-zero seed; every non-zero seed of O/W1/W2/WZ/BYTE (state image must equal the seed; distinct = distinct images); the u64 alphabet (incl. the 8 arguments whose SplitMix64 output j is zero) and complete 2^22 (quick) / 2^30 (thorough) sub-cubes of the low and high half of the u64 argument; from_rng and try_from_rng over sources delivering z all-zero blocks (z = 0..12 and 2^j-1, 2^j, 2^j+1 up to 65537 / 262145) followed by single-bit blocks and by the documented replacement constants".into(),
+            rule: "every constructor of the 14 linear xoshiro types and XorShiftRng on: the all-zero seed; every non-zero seed of O/W1/W2/WZ/BYTE (state image must equal the seed; distinct = distinct images); the u64 alphabet (incl. the 8 arguments whose SplitMix64 output j is zero) and complete 2^22 (quick) / 2^30 (thorough) sub-cubes of the low and high half of the u64 argument; from_rng and try_from_rng over sources delivering z all-zero blocks (z = 0..12 and 2^j-1, 2^j, 2^j+1 up to 65537 / 262145) followed by single-bit blocks, by the documented replacement constants and by blocks with special word patterns (zero word, equal words, words summing or xoring to zero)".into(),
         },
     }
 }
